@@ -182,7 +182,7 @@ func (ip *Interp) zero(t types.Type) Value {
 			return &Str{}
 		case u.Kind() == types.UnsafePointer:
 			return Ptr{}
-		case u.Kind() == types.UntypedNil:
+		case u.Kind() == types.UntypedNil, u.Kind() == types.Invalid:
 			return nil
 		}
 	case *types.Pointer:
